@@ -2328,13 +2328,14 @@ class LinearOperator(object):
                 "Got a {} of size {}.".format(self.__class__.__name__, self.size())
             )
 
-        if self.dim() == 2 and right_tensor.dim() == 1:
-            if self.shape[-1] != right_tensor.numel():
-                raise RuntimeError(
-                    "LinearOperator (size={}) cannot be multiplied with right-hand-side Tensor (size={}).".format(
-                        self.shape, right_tensor.shape
-                    )
-                )
+        # A^{-1} R is defined for exactly the right-hand sides that A R is defined for
+        _matmul_broadcast_shape(
+            self.shape,
+            right_tensor.shape,
+            error_msg="LinearOperator (size={}) cannot be multiplied with right-hand-side Tensor (size={}).".format(
+                self.shape, right_tensor.shape
+            ),
+        )
 
         func = Solve
         if left_tensor is None:
